@@ -50,6 +50,16 @@ EXTRA = {
         "excel_roundtrip; outside it create_sheet raises ValueError or renames — negative cases run each time); "
         "text is free of C0 controls other than tab and line feed (a carriage return comes back as a line feed: "
         "negative case); timestamps are whole seconds from 1900-01-01; na_rep is the default '-'",
+        "TIES — pins (a source change breaks a Lean theorem): style_writes_pinned (the style loop assigns only "
+        "font / fill / alignment; no `.value` store anywhere in the module), header_text_pinned (header f-strings "
+        "per orientation, destinations joined by one blank), sheet_loops_pinned (sheet loop over the mapping, "
+        "`wb.worksheets` in workbook order, (title, iter_rows) pairs, `sheet_name_pattern.match`), "
+        "represent_consts_pinned (sealant, na_rep default) and the C02/C03 pins of the shared reader layers. "
+        "TIES — correspondence only (no pin; Gen.excelAppended / excelInts / excelStyleStmts are informational "
+        "fingerprints): order and content of the appended rows (recorded ws.append calls vs Grid.layoutSheet), the "
+        "openpyxl law (read_sheets rows vs Grid.store), the style index arithmetic incl. i_start / sep_lines / the "
+        "transposed swap / widened columns (styled cells of the saved file vs Grid.styleTargets), table_dimensions, "
+        "every block read_excel yields (vs Grid.readExcel), the well-formedness and sheet-name predicates",
         "HARNESS-ONLY: 'writing to a path versus a binary stream' has no Lean theorem (the model has no notion of a "
         "target): every case is written to both kinds of target and the saved value grids are compared cell by cell; "
         "the read-back oracle runs on the target drawn for the case",
